@@ -50,7 +50,10 @@ fn main() {
                     _ => usage(),
                 }
             }
-            let ctx = Ctx { prop, tier, seed, threads, config, reduced: false };
+            // the secondary no-std configuration of a property other than C04 always runs the quick
+            // workload (the same code paths; the thorough depth is spent in the primary configuration)
+            let run_tier = if config == "nostd" && prop != "C04" { Tier::Quick } else { tier };
+            let ctx = Ctx { prop, tier: run_tier, seed, threads, config, reduced: false };
             let started = Instant::now();
             let report = match guarded(|| vharness::run_property(&ctx)) {
                 Ok(Some(r)) => r,
